@@ -76,23 +76,8 @@ def pv3(m, run, piv):
            'produces a cycle of three or more rows' % verdict[1], site(fi, where))
 
 
-def check(m, run):
-    sc1(m, run)
-    P = Purity(m)
-    funcs = [fi for mod in MODS for fi in m.functions_in(mod) if fi.kind == 'function']
-    if len(funcs) < 30:
-        raise AnalysisError('only %d module-level functions found in linalg/_linalg (expected >= 30)' % len(funcs))
-    # ---------------------------------------------------------------- PU1 / PU5
-    for fi in funcs:
-        s = P.summary(fi)
-        mp = [mu for mu in s.mutations if mu.root.startswith('param:')]
-        run.ob('PU1.no-param-mutation', fi.key, not mp,
-               '; '.join('%s mutated by %s at `%s`' % (mu.root, mu.how, norm(mu.node)[:70]) for mu in mp[:3]) or 'no parameter is mutated',
-               site(fi, mp[0].node) if mp else '')
-        mg = [mu for mu in s.mutations if mu.root.startswith('global:')]
-        run.ob('PU5.no-module-state', fi.key, not mg,
-               '; '.join('%s: %s at `%s`' % (mu.root, mu.how, norm(mu.node)[:70]) for mu in mg[:3]) or 'no module-level state written',
-               site(fi, mg[0].node) if mg else '')
+def pu4(m, run, P=None):
+    P = P or Purity(m)
     # ---------------------------------------------------------------- PU4 memoised results
     memo = [fi for fi in m.funcs.values() if is_memoised(fi.node)]
     if len(memo) < 2:
@@ -122,9 +107,10 @@ def check(m, run):
                   (mf.mod, n.id) in m.modassign and isinstance(m.modassign[(mf.mod, n.id)], (ast.List, ast.Dict))]
         run.ob('PU4.memo-body-pure', mf.key, not impure and not (s and s.mutations),
                'reads mutable module state `%s`' % impure[0].id if impure else 'body depends on its arguments only')
-    # ---------------------------------------------------------------- PV1 paired swap in matrix_pivot
-    piv = m.func('linalg.matrix_pivot')
-    check_pivot(m, run, piv)
+
+
+def pv2(m, run, piv=None):
+    piv = piv or m.func('linalg.matrix_pivot')
     # ---------------------------------------------------------------- PV2 pivot companions
     n_cons = 0
     for fi in m.funcs.values():
@@ -143,6 +129,30 @@ def check(m, run):
                            'the row-permuted matrix `%s` is used but neither the permutation nor its sign (%s) is: results refer to the '
                            'permuted system, e.g. the right-hand side is never permuted' % (names[0], companions) if not ok else
                            'permuted matrix used together with %s' % used_c, site(fi, n))
+
+
+def check(m, run):
+    sc1(m, run)
+    P = Purity(m)
+    funcs = [fi for mod in MODS for fi in m.functions_in(mod) if fi.kind == 'function']
+    if len(funcs) < 30:
+        raise AnalysisError('only %d module-level functions found in linalg/_linalg (expected >= 30)' % len(funcs))
+    # ---------------------------------------------------------------- PU1 / PU5
+    for fi in funcs:
+        s = P.summary(fi)
+        mp = [mu for mu in s.mutations if mu.root.startswith('param:')]
+        run.ob('PU1.no-param-mutation', fi.key, not mp,
+               '; '.join('%s mutated by %s at `%s`' % (mu.root, mu.how, norm(mu.node)[:70]) for mu in mp[:3]) or 'no parameter is mutated',
+               site(fi, mp[0].node) if mp else '')
+        mg = [mu for mu in s.mutations if mu.root.startswith('global:')]
+        run.ob('PU5.no-module-state', fi.key, not mg,
+               '; '.join('%s: %s at `%s`' % (mu.root, mu.how, norm(mu.node)[:70]) for mu in mg[:3]) or 'no module-level state written',
+               site(fi, mg[0].node) if mg else '')
+    pu4(m, run, P)
+    # ---------------------------------------------------------------- PV1 paired swap in matrix_pivot
+    piv = m.func('linalg.matrix_pivot')
+    check_pivot(m, run, piv)
+    pv2(m, run, piv)
     run.floor('PV2.pivot-companion', 3, 'matrix_inverse, matrix_determinant, lu_factor')
     pv3(m, run, piv)
     # ---------------------------------------------------------------- AL identities
